@@ -88,22 +88,23 @@ func (o Op) String() string {
 // Conn is a scripted net.Conn.  It is not safe for free-running concurrent use; under
 // the controlled scheduler exactly one thread runs at a time.
 type Conn struct {
-	In      []byte // bytes the peer "sent"
-	inPos   int
-	Chunk   func(c *Conn, want, avail int) int // how many bytes the next Read returns (nil: all that fit)
-	Decide  func(c *Conn, kind OpKind, index int) Fault
-	AtEnd   Fault // what a Read reports when In is exhausted: FailEOF (default), FailErr, FailTimeout
-	Ops     []Op
-	Out     []byte   // all bytes accepted by Write, concatenated
-	Writes  [][]byte // per Write call
-	Closed  int
-	WDL     time.Time // effective write deadline
-	RDL     time.Time
-	Failed  bool                                // a write fault has been injected
-	Hook    func(c *Conn, phase string, op *Op) // scheduler hook (phase "pre"/"post")
-	Name    string
-	OnWrite func(c *Conn, p []byte) // called for every accepted write (before logging)
-	Extra   func(c *Conn) []byte    // called when In is exhausted: more input (e.g. a responder)
+	In        []byte // bytes the peer "sent"
+	inPos     int
+	Chunk     func(c *Conn, want, avail int) int // how many bytes the next Read returns (nil: all that fit)
+	Decide    func(c *Conn, kind OpKind, index int) Fault
+	AtEnd     Fault // what a Read reports when In is exhausted: FailEOF (default), FailErr, FailTimeout
+	Ops       []Op
+	Out       []byte   // all bytes accepted by Write, concatenated
+	Writes    [][]byte // per Write call
+	Closed    int
+	WDL       time.Time // effective write deadline
+	RDL       time.Time
+	Failed    bool                                // a write fault has been injected
+	Hook      func(c *Conn, phase string, op *Op) // scheduler hook (phase "pre"/"post")
+	Name      string
+	OnWrite   func(c *Conn, p []byte) // called for every accepted write (before logging)
+	Extra     func(c *Conn) []byte    // called when In is exhausted: more input (e.g. a responder)
+	NoReadLog bool                    // do not log successful Reads (bulk read-side use)
 }
 
 // NewConn returns a connection that will deliver in.
@@ -188,7 +189,9 @@ func (c *Conn) Read(p []byte) (int, error) {
 	} else if f == FailDataErr {
 		err = ErrInjected
 	}
-	c.log(Op{Kind: OpRead, Index: idx, N: len(p), Data: data, Fault: f, Err: err})
+	if !c.NoReadLog || err != nil {
+		c.log(Op{Kind: OpRead, Index: idx, N: len(p), Data: data, Fault: f, Err: err})
+	}
 	return n, err
 }
 
